@@ -18,5 +18,6 @@ cp "$MD/$DEMO" "$WT/$DEST"
 D1=fails; (cd $PKG && go test -vet=off -count=1 -run "$RUN" . >/tmp/confirm_demo1.log 2>&1) && D1=PASSES
 git checkout -q -- . 
 D2=passes; (cd $PKG && go test -vet=off -count=1 -run "$RUN" . >/tmp/confirm_demo2.log 2>&1) || D2=FAILS
+/verif/tools/reset_audit.sh >/dev/null 2>&1
 echo "CONFIRM build=$B1 build_verif=$B2 suite_with_change=$S demo_with_change=$D1 demo_without_change=$D2"
 [ "$B1$B2$S$D1$D2" = "okokokfailspasses" ]
